@@ -2,7 +2,7 @@ use crate::{
     builtins::TZ_PROVIDER,
     options::{RelativeTo, RoundingOptions, Unit},
     primitive::FiniteF64,
-    Duration, TemporalError, TemporalResult,
+    Duration, TemporalResult,
 };
 
 use core::cmp::Ordering;
@@ -22,7 +22,8 @@ impl Duration {
     ) -> TemporalResult<Self> {
         let provider = TZ_PROVIDER
             .lock()
-            .map_err(|_| TemporalError::general("Unable to acquire lock"))?;
+            // NOTE: A panic in an earlier call poisons the lock; the provider is still usable.
+            .unwrap_or_else(std::sync::PoisonError::into_inner);
         self.round_with_provider(options, relative_to, &*provider)
     }
 
@@ -37,14 +38,16 @@ impl Duration {
     ) -> TemporalResult<Ordering> {
         let provider = TZ_PROVIDER
             .lock()
-            .map_err(|_| TemporalError::general("Unable to acquire lock"))?;
+            // NOTE: A panic in an earlier call poisons the lock; the provider is still usable.
+            .unwrap_or_else(std::sync::PoisonError::into_inner);
         self.compare_with_provider(two, relative_to, &*provider)
     }
 
     pub fn total(&self, unit: Unit, relative_to: Option<RelativeTo>) -> TemporalResult<FiniteF64> {
         let provider = TZ_PROVIDER
             .lock()
-            .map_err(|_| TemporalError::general("Unable to acquire lock"))?;
+            // NOTE: A panic in an earlier call poisons the lock; the provider is still usable.
+            .unwrap_or_else(std::sync::PoisonError::into_inner);
         self.total_with_provider(unit, relative_to, &*provider)
     }
 }
